@@ -1022,6 +1022,11 @@ func runServerCase(c *srvCase) {
 	cfg := c.cfg
 	st := startServer(c)
 	secret := st.s.VerifTokenSecret()
+	// C10: a token "issued by another node" can only be refused if nodes do not share their secret
+	if len(secret) != 20 || isZero(secret) || string(secret) == lastSecret {
+		oracle("C10", "token-secret-not-unique-per-server", "case=%d len=%d secret=%x previous=%x", c.idx, len(secret), secret, lastSecret)
+	}
+	lastSecret = string(secret)
 	var veto []string
 	for _, v := range cfg.veto {
 		veto = append(veto, hx([]byte(v)))
@@ -1090,6 +1095,8 @@ func runServerCase(c *srvCase) {
 		time.Sleep(50 * time.Microsecond)
 	}
 }
+
+var lastSecret string
 
 // goroutines of the harness process itself, before any server exists
 var procBase int
